@@ -2,4 +2,5 @@ SPECIFICATION Spec
 CONSTANTS
   N = 5
   AllPairs = FALSE
+  Sparse = 5
 CHECK_DEADLOCK FALSE
